@@ -299,55 +299,65 @@ func PerRowEmission(p *core.Program, r *core.Report, rule string) {
 	_ = n
 }
 
-// rowAccessorCallers: the accessors of a computed row may be called only from the shared projections.
-var rowAccessorCallers = map[string]map[string]string{
-	"ProtocolsAndPorts": {
-		"formSingleP2PConn": "shared projection (txt/json/csv/md)", "addConnlistOutputData": "dot projection: same ConnStrFromConnProperties call",
-		"GetConnectionSetFromP2PConnection": "rebuilds the set for diff equality", "refineP2PConnByDisjointPeers": "copies the row for a refined IP peer",
-		"getDirsConnsStrings": "diff projection", "ProtocolsAndPorts": "accessor itself", "mergeBySrcOrDstIPPeers": "copies the row for a merged IP range", "getConnStringsFromConnsPair": "diff grouping key",
-		"Ref1Connectivity": "diff row accessor: hands the first side's row on unchanged", "Ref2Connectivity": "diff row accessor: hands the second side's row on unchanged",
-	},
-	"PotentialConnectivity": {
-		"formExposureItemAsSingleConnFiled": "shared exposure projection", "getXgressExposureEdges": "dot exposure projection", "PotentialConnectivity": "accessor itself",
-	},
-	"Ref1Connectivity": {"getDirsConnsStrings": "diff projection", "Ref1Connectivity": "accessor itself"},
-	"Ref2Connectivity": {"getDirsConnsStrings": "diff projection", "Ref2Connectivity": "accessor itself"},
-}
-
-// ProjectionSharing is the who-may-format rule of C09.
+// ProjectionSharing is the who-may-format rule of C09: in the formatting layer a row's protocols-to-ports map is only
+// handed on (to the shared ConnStrFromConnProperties, to a copy constructor, to a helper) - it is never taken apart
+// (ranged over, indexed, measured) outside package common, where the one shared rendering lives. Decided by the TYPE
+// of the operand, so it does not matter through which accessor, local or parameter the map arrives.
 func ProjectionSharing(p *core.Program, r *core.Report, rule string) {
 	n := 0
-	for _, fd := range p.Funcs {
+	isRowMap := func(t types.Type) bool {
+		if t == nil {
+			return false
+		}
+		m, ok := t.Underlying().(*types.Map)
+		if !ok {
+			return false
+		}
+		sl, ok := m.Elem().Underlying().(*types.Slice)
+		if !ok {
+			return false
+		}
+		nt := core.NamedOf(sl.Elem())
+		return nt != nil && nt.Obj().Name() == "PortRange" && nt.Obj().Pkg() != nil && nt.Obj().Pkg().Path() == core.PkgCommon
+	}
+	for _, fd := range formatterFuncs(p) {
+		if fd.Pkg.PkgPath == core.PkgCommon {
+			continue
+		}
 		info := fd.Pkg.TypesInfo
-		seen := map[string]bool{}
+		bad := ""
+		handsOn := 0
 		ast.Inspect(fd.Decl.Body, func(nd ast.Node) bool {
-			c, ok := nd.(*ast.CallExpr)
-			if !ok {
-				return true
+			switch x := nd.(type) {
+			case *ast.RangeStmt:
+				if isRowMap(info.TypeOf(x.X)) && bad == "" {
+					bad = "ranges over " + core.Stable(info, x.X) + " at " + p.Pos(x.Pos())
+				}
+			case *ast.IndexExpr:
+				if isRowMap(info.TypeOf(x.X)) && bad == "" {
+					bad = "indexes " + core.Stable(info, x.X) + " at " + p.Pos(x.Pos())
+				}
+			case *ast.CallExpr:
+				if core.IsBuiltinCall(info, x, "len") && len(x.Args) == 1 && isRowMap(info.TypeOf(x.Args[0])) && bad == "" {
+					bad = "measures " + core.Stable(info, x.Args[0]) + " at " + p.Pos(x.Pos())
+				}
+				for _, a := range x.Args {
+					if isRowMap(info.TypeOf(a)) {
+						handsOn++
+					}
+				}
 			}
-			fn := core.Callee(info, c)
-			if fn == nil || !p.IsModuleFunc(fn) {
-				return true
-			}
-			allowed, ok := rowAccessorCallers[fn.Name()]
-			if !ok || seen[fn.Name()] {
-				return true
-			}
-			// only the row interfaces / their implementations
-			sig := fn.Type().(*types.Signature)
-			if sig.Recv() == nil || sig.Params().Len() != 0 {
-				return true
-			}
-			seen[fn.Name()] = true
-			n++
-			why, okc := allowed[fd.Obj.Name()]
-			r.Check(okc, rule, fmt.Sprintf("%s: reads a row through %s()", fd.Key(), fn.Name()), p.Pos(c.Pos()), why,
-				"a computed row is read through "+fn.Name()+"() outside the shared projection functions: this format builds its own rendering of the connection, which can drift from the other formats")
 			return true
 		})
+		if handsOn == 0 && bad == "" {
+			continue
+		}
+		n++
+		r.Check(bad == "", rule, fmt.Sprintf("%s: hands a row's protocols and ports on without taking them apart", fd.Key()), p.Pos(fd.Decl.Pos()), "",
+			"a computed row's protocols-to-ports map is taken apart in the formatting layer ("+bad+") instead of being rendered by the shared projection: this format builds its own rendering of the connection, which can drift from the other formats")
 	}
-	r.Floor(rule, 8)
-	_ = n
+	r.RuleCounts[rule] = n
+	r.Floor(rule, 2)
 	// every list formatter obtains its rows through the shared projections
 	shared := map[string]bool{"formSingleP2PConn": true, "getConnlistAsSortedSingleConnFieldsArray": true, "getExposureConnsAsSortedSingleConnFieldsArray": true, "addConnlistOutputData": true, "addExposureOutputData": true,
 		"writeDiffLinesOrderedByCategory": true, "formDiffFieldsDataOfDiffConns": true, "getDirsConnsStrings": true}
@@ -1198,6 +1208,26 @@ func ReturnCompleteness(p *core.Program, r *core.Report, rule string) {
 					dep(sk, map[types.Object]bool{}, ri.deps)
 				}
 			}
+			// a boolean method of an input that is not a one-liner (so the walker keeps it opaque): when its positive
+			// answer is entailed here, it pins the fields that every positive answer of the method pins
+			for call, atom := range w.CallAtoms {
+				if !facts.Entails(f, facts.Atom(atom)) {
+					continue
+				}
+				se, isSe := ast.Unparen(call.Fun).(*ast.SelectorExpr)
+				if !isSe || len(call.Args) != 0 {
+					continue
+				}
+				id, isId := ast.Unparen(se.X).(*ast.Ident)
+				if !isId || !structParam[info.ObjectOf(id)] {
+					continue
+				}
+				if callee, isF := info.ObjectOf(se.Sel).(*types.Func); isF {
+					for fld := range predicatePins(p, callee) {
+						ri.pinned[fld] = true
+					}
+				}
+			}
 			// pins: atoms that fix an input (or a local computed from inputs)
 			for _, a := range facts.Atoms(f) {
 				if !facts.Entails(f, facts.Atom(a)) && !facts.Entails(f, facts.Not{X: facts.Atom(a)}) {
@@ -1401,4 +1431,71 @@ func inExhaustiveDefault(info *types.Info, body *ast.BlockStmt, ret *ast.ReturnS
 		return !found
 	})
 	return found
+}
+
+// predicatePins: the receiver fields that EVERY positive answer of the boolean method fn pins (an emptiness, nil,
+// length or constant-equality fact on the field is entailed by the path of the answer).
+func predicatePins(p *core.Program, fn *types.Func) map[string]bool {
+	fd := p.ByObj[fn]
+	if fd == nil {
+		return nil
+	}
+	sig := fn.Type().(*types.Signature)
+	if sig.Recv() == nil {
+		return nil
+	}
+	info := fd.Pkg.TypesInfo
+	w := facts.NewWalker(info)
+	w.Inline = true
+	var common map[string]bool
+	w.OnExit = func(st int, ret *ast.ReturnStmt, f facts.Formula) {
+		if w.FuncLitDepth > 0 || ret == nil || len(ret.Results) != 1 {
+			return
+		}
+		if v, isC := core.ConstString(info, ret.Results[0]); isC && v == "false" {
+			return
+		}
+		pf := facts.MkAnd(f, w.Cond(ret.Results[0]))
+		if !facts.Satisfiable(pf) {
+			return
+		}
+		pf = facts.MkAnd(pf, facts.LenImplications(pf))
+		got := map[string]bool{}
+		prefix := w.PathOfVar(sig.Recv()) + "."
+		for _, a := range facts.Atoms(pf) {
+			kind, path, _ := strings.Cut(a, ":")
+			switch kind {
+			case "nil", "empty", "len", "eq":
+			default:
+				continue
+			}
+			if !facts.Entails(pf, facts.Atom(a)) {
+				continue
+			}
+			path = strings.TrimPrefix(facts.StripVersions(path), "len(")
+			if !strings.HasPrefix(path, facts.StripVersions(prefix)) {
+				continue
+			}
+			rest := strings.TrimPrefix(path, facts.StripVersions(prefix))
+			name := rest
+			for i, ch := range rest {
+				if ch == '.' || ch == '[' || ch == ')' || ch == '=' || ch == '(' {
+					name = rest[:i]
+					break
+				}
+			}
+			got[name] = true
+		}
+		if common == nil {
+			common = got
+			return
+		}
+		for k := range common {
+			if !got[k] {
+				delete(common, k)
+			}
+		}
+	}
+	w.WalkBody(fd.Decl.Body, nil)
+	return common
 }
